@@ -56,7 +56,12 @@ from .. import core, tla
 
 CODEPOINT = 'http://www.w3.org/2005/xpath-functions/collation/codepoint'
 ALL_ACTS = {"fn1", "fn2", "translate", "substring", "concatx", "rejoin", "cps"}
-EXTRA_ACTS = {"uri", "doc"}
+EXTRA_ACTS = {"uri", "doc", "coll"}
+ASCII_CI = 'http://www.w3.org/2005/xpath-functions/collation/html-ascii-case-insensitive'
+COLLATION_URI = {'codepoint': CODEPOINT, 'ascii-ci': ASCII_CI}
+ALPHA_C = {97, 65, 98, 128512}
+# legal boundary code points of the XML Char production (spec: LegalBoundary)
+LEGAL_BOUNDARY = {9, 10, 13, 32, 127, 128, 133, 159, 55295, 57344, 64975, 64976, 65007, 65008, 65533, 65536, 131070, 131071, 1114111}
 URI_ALPHA = {37, 50, 48, 70, 102, 71, 97, 32}       # % 2 0 F f G a space
 A12 = {97, 98, 65, 49, 32, 9, 10, 769, 128512, 37, 47, 160}
 A8 = {97, 98, 65, 32, 10, 769, 128512, 160}
@@ -65,7 +70,7 @@ A2T = {97, 65, 32, 769, 128512}
 A6 = {97, 98, 32, 769, 128512, 160}
 A9T = {97, 98, 65, 32, 10, 769, 128512, 37, 160}
 SWEEP = set(range(32, 127)) | {9, 10, 13}
-EVERY = set(A12) | {0, 66} | SWEEP
+EVERY = set(A12) | {0, 66} | SWEEP | LEGAL_BOUNDARY
 
 
 def _parts(alpha, n, with_zero=True):
@@ -81,24 +86,24 @@ def _parts(alpha, n, with_zero=True):
         if 97 in p:
             p.add(65)
         if i == 0 and with_zero:
-            p |= {0} | (SWEEP - set(alpha) - {65, 66})
+            p |= {0} | ((SWEEP | LEGAL_BOUNDARY) - set(alpha) - {65, 66})
         out.append(p)
     return out
 
 
 def _tiers():
     quick = [('L3', dict(MaxLen=3, Alpha=A8, Alpha2=A2Q, AlphaM={97, 32, 128512}, GridName='small',
-                         Sweep=True, Part=EVERY, UriAlpha=URI_ALPHA, UriLen=4, DocLen=3, Acts=ALL_ACTS | EXTRA_ACTS))]
+                         Sweep=True, Part=EVERY, UriAlpha=URI_ALPHA, UriLen=4, DocLen=3, AlphaC=ALPHA_C, Acts=ALL_ACTS | EXTRA_ACTS))]
     thorough = []
     # all strings <= 3 over the full alphabet x all second strings <= 2 over 9 character classes x full grid
     for i, p in enumerate(_parts(A12, 3)):
         thorough.append((f'L3-full-p{i}', dict(MaxLen=3, Alpha=A12, Alpha2=A9T, AlphaM={97, 98, 32, 128512},
-                                              GridName='full', Sweep=(i == 0), Part=p, UriAlpha=URI_ALPHA, UriLen=5, DocLen=4,
+                                              GridName='full', Sweep=(i == 0), Part=p, UriAlpha=URI_ALPHA, UriLen=5, DocLen=4, AlphaC=ALPHA_C,
                                               Acts=(ALL_ACTS | EXTRA_ACTS if i == 0 else ALL_ACTS))))
     # all strings <= 4 over 6 character classes x second strings <= 2 over 5 x full grid
     for i, p in enumerate(_parts(A6, 2, with_zero=False)):
         thorough.append((f'L4-p{i}', dict(MaxLen=4, Alpha=A6, Alpha2=A2T, AlphaM={97, 32, 128512},
-                                          GridName='full', Sweep=False, Part=p, UriAlpha=URI_ALPHA, UriLen=1, DocLen=0,
+                                          GridName='full', Sweep=False, Part=p, UriAlpha=URI_ALPHA, UriLen=1, DocLen=0, AlphaC=ALPHA_C,
                                           Acts=ALL_ACTS)))
     return {'quick': quick, 'thorough': thorough}
 
@@ -110,7 +115,7 @@ IN10_F2 = {'contains', 'starts-with', 'substring-before', 'substring-after', 'co
 COLLATION_F2 = {'contains', 'starts-with', 'ends-with', 'substring-before', 'substring-after', 'compare'}
 SPECIALS = {'INF', '-INF', 'NaN'}
 EXPECTED_ACTIONS = {'Fn1', 'Fn2', 'Translate', 'Substring2', 'Substring3', 'ConcatNum', 'ConcatNum10',
-                    'ConcatBool', 'CpToStr', 'Rejoin', 'DocFn1', 'DocFn2', 'DocTranslate', 'DocConcat3', 'DocSubstring'}
+                    'ConcatBool', 'CpToStr', 'Rejoin', 'CollFn2', 'CollFn1', 'CollTranslate', 'CollSubstring', 'DocFn1', 'DocFn2', 'DocTranslate', 'DocConcat3', 'DocSubstring'}
 
 
 # ---------------------------------------------------------------------------------------
@@ -178,6 +183,18 @@ def template(action: str, args: tuple, sfx: str = ''):
         return 'concat', f'concat($s,{"true()" if args[0] else "false()"})', {}, True
     if action == 'CpToStr':
         return 'codepoints-to-string', 'codepoints-to-string($s)', {}, False
+    if action == 'CollFn2':
+        f, t, d, a = args
+        if a == 'none':
+            return f, f'{f}($s,{v("t")})', {'t' + sfx: ['str', list(t)]}, False
+        return f, f'{f}($s,{v("t")},{v("k")})', {'t' + sfx: ['str', list(t)], 'k' + sfx: ['str', list(map(ord, COLLATION_URI[a]))]}, False
+    if action == 'CollFn1':
+        return args[0], f'{args[0]}($s)', {}, False
+    if action == 'CollTranslate':
+        m, r = args[0], args[1]
+        return 'translate', f'translate($s,{v("m")},{v("r")})', {'m' + sfx: ['str', list(m)], 'r' + sfx: ['str', list(r)]}, False
+    if action == 'CollSubstring':
+        return 'substring', f'substring($s,{v("a")})', {'a' + sfx: ['dbl', args[0]]}, False
     if action == 'Rejoin':
         t = args[0]
         return 'rejoin', f'concat(substring-before($s,{v("t")}),{v("t")},substring-after($s,{v("t")}))', \
@@ -262,15 +279,16 @@ def evaluate(expr: str, version: str, variables: dict, fresh: bool = False):
     """outcome: abstract value | ('err', code) | ('escaped', ExceptionClass)"""
     import elementpath
     from elementpath.exceptions import ElementPathError
-    kw = {} if version == '1.0' else {'default_collation': CODEPOINT}
+    pv, _, dc = version.partition('@')          # '3.1@ascii-ci': parser version @ default collation of the static context
+    kw = {} if pv == '1.0' else {'default_collation': COLLATION_URI[dc or 'codepoint']}
     vs = {k: dec_var(e) for k, e in variables.items()}
     try:
         if fresh:
-            r = elementpath.select(None, expr, item=1, parser=parsers()[version], variables=vs, **kw)
+            r = elementpath.select(None, expr, item=1, parser=parsers()[pv], variables=vs, **kw)
         else:
             sel = _sel_cache.get((expr, version))
             if sel is None:
-                sel = _sel_cache[(expr, version)] = elementpath.Selector(expr, parser=parsers()[version], **kw)
+                sel = _sel_cache[(expr, version)] = elementpath.Selector(expr, parser=parsers()[pv], **kw)
             r = sel.select(None, item=1, variables=vs)
     except ElementPathError as e:
         return ('err', (e.code or '').split(':')[-1])
@@ -291,6 +309,8 @@ def libxml2(expr: str, variables: dict):
         xp = _lx_cache[expr] = etree.XPath(expr)
     try:
         r = xp(_lx_root, **{k: dec_var(e) for k, e in variables.items()})
+    except ValueError:
+        return None          # lxml refuses the variable value (e.g. a C1 control): no second oracle for this vector
     except Exception as e:  # noqa
         return ('escaped', type(e).__name__ + ':' + str(e)[:60])
     return project(r)
@@ -644,10 +664,13 @@ def num_class(tok: str) -> str:
 
 def features(action, args, fn, src, exp, outcome, version, spelling, inner):
     s = src.get('s', src.get('c', ()))
-    f = dict(fn=fn, action=action, parser=('1.0' if version == '1.0' else '2+'), src=src['t'], spelling=spelling,
+    f = dict(fn=fn, action=action, parser=('1.0' if version.startswith('1.0') else '2+'), src=src['t'], spelling=spelling,
              outcome=outcome, expected=exp[0], inner=inner)
     if fn == 'normalize-space':
         f['has_nbsp'] = 160 in s       # Unicode White_Space that is not XML whitespace
+    if action.startswith('Coll'):
+        f['default_collation'] = args[-2] if action == 'CollFn2' else args[-1]
+        f['collation_arg'] = args[-1] if action == 'CollFn2' else None
     if action in ('Substring2', 'Substring3'):
         f['nargs'] = len(args) + 1
         f['a_class'] = num_class(args[0])
@@ -678,6 +701,9 @@ def spellings(idx, src, action, args):
     is_str = src['t'] == 'str'
     if action == 'ConcatNum10':
         return fn, [('plain', expr, vs, ['1.0'])] if is_str else []
+    if action.startswith('Coll'):
+        d = args[-2] if action == 'CollFn2' else args[-1]
+        return fn, [('plain', expr, vs, [f'{alt}@{d}', f'{other}@{d}'])]
     # the 2.0 and 3.1 parsers share one implementation of these functions: quick alternates them
     versions = ['2.0', '3.1'] if G.get('all_versions') and action != 'Fn2' else [other]
     if in10 and is_str and not (action == 'ConcatNum' and args[0] in ('INF', '-INF')):
@@ -716,7 +742,7 @@ def worker(job):
         fn, sps = spellings(idx, src, action, args)
         # chains of depth 2: the source spelled as the call that produced it along another edge
         prods = producers.get(s)
-        if prods and action != 'ConcatNum10' and idx % 4 in (0, 3):
+        if prods and action != 'ConcatNum10' and not action.startswith('Coll') and idx % 4 in (0, 3):
             ps, pact, pargs = prods[idx % len(prods)]
             psrc = states[ps]['cur']
             pfn, pexpr, pvs, pin10 = template(pact, pargs, '0')
@@ -741,8 +767,8 @@ def worker(job):
             if '1.0' in versions and not lx_done and spelling == 'plain':
                 lx_done = True
                 lx = libxml2(expr, vs)
-                n_lx += 1
-                if conforms(exp, lx) is not None:
+                n_lx += lx is not None
+                if lx is not None and conforms(exp, lx) is not None:
                     oracle.append(f'{expr} {vs}: spec {exp} libxml2 {lx}')
             for v in versions:
                 fresh = (idx + len(expr)) % 16 == 0
@@ -870,13 +896,14 @@ def run(chk: core.Check) -> None:
         'libxml2 (lxml) is second oracle for the XPath 1.0 functions; python UTF-8 codec, str.upper/lower and float() cross-check the spec tables',
         'XPath 1.0 string(+-INF) = Infinity (sec. 4.2) differs from F&O INF: modelled by ConcatNum10, replayed on the 1.0 side only',
         'parsers are built with default_collation = Unicode code point collation (the locale-derived default is outside C09)',
-        'error codes are not compared (the property names none); codepoints-to-string only uses code points invalid/valid in both XML 1.0 and 1.1',
+        'error codes are not compared (the property names none); codepoints-to-string follows the XML 1.0 Char production (the C0 controls of XML 1.1 are errors)',
+        'static context: default collation in {codepoint, html-ascii-case-insensitive} x collation argument {absent, codepoint, html-ascii-case-insensitive} (spec: Effective / UsesCollation); locale and UCA collations are outside C09',
     ]
     seen_actions = set()
     for name, consts in TIERS[chk.tier]:
         wd = os.path.join(chk.scratch, name)
         dot = os.path.join(wd, 'g.dot')
-        cfg = tla.cfg_text(consts, invariants=['Laws', 'LawCps', 'LawsUri', 'LawDoc'])
+        cfg = tla.cfg_text(consts, invariants=['Laws', 'LawCps', 'LawsUri', 'LawDoc', 'LawColl'])
         r = tla.require_ok(tla.run_tlc('Strings', cfg, wd, dump_dot=dot), f'Strings/{name}', min_distinct=100)
         chk.model(f'Strings/{name}', r)
         g = tla.load_dot(dot)
@@ -890,7 +917,7 @@ def run(chk: core.Check) -> None:
         has_out = {e[0] for e in g.edges if not e[2].startswith('Doc')}
         producers: dict[int, list] = {}
         for s, d, a, args in g.edges:
-            if d in has_out and s != d and a != 'ConcatNum10' and not a.startswith('Doc'):
+            if d in has_out and s != d and a != 'ConcatNum10' and not a.startswith(('Doc', 'Coll')):
                 lst = producers.setdefault(d, [])
                 fnm = (a, args[0] if a in ('Fn1', 'Fn2') else None)
                 if len(lst) < 3 and all((x[1], x[2][0] if x[1] in ('Fn1', 'Fn2') else None) != fnm for x in lst):
@@ -906,7 +933,7 @@ def run(chk: core.Check) -> None:
         chk.add('traces_validated_against_impl', n)
         chk.add('distinct_nontrivial', len(nontrivial))
         nt_edges = [e for e in g.edges[:: max(1, n // 4000)] if not trivial(g.states[e[0]]['cur'], g.states[e[1]]['cur'])]
-        for s, d, a, args in [e for e in nt_edges if not e[2].startswith('Doc')][:: max(1, len(nt_edges) // 5)][:5]:
+        for s, d, a, args in [e for e in nt_edges if not e[2].startswith(('Doc', 'Coll'))][:: max(1, len(nt_edges) // 5)][:5]:
             fn, expr, vs, _ = template(a, args)
             chk.sample(dict(expr=expr, variables={k: dec_var(e) for k, e in dict(vs, s=enc_value(g.states[s]['cur'])).items()},
                             expected=norm_expected(g.states[d]['cur'])))
